@@ -557,12 +557,17 @@ SWEEP = ["concurrent/test_vector.cpp",
 
 # name anchors (validated by tools/rename_sweep.py; a vanished name is exit 2, see core.check_anchor_names)
 ANCHORS = {
+    '_block_mask': ['^babylon::ConcurrentVector(<|$)'],
+    '_block_mask_bits': ['^babylon::ConcurrentVector(<|$)'],
     '_block_table': ['^babylon::ConcurrentVector(<|$)'],
     '_constructor': ['^babylon::ConcurrentVector(<|$)'],
+    'block_alignment': ['^babylon::ConcurrentVector(<|$)'],
+    'calculate_block_allocation_size': ['^babylon::ConcurrentVector(<|$)'],
     'create_block': ['^babylon::ConcurrentVector(<|$)'],
     'delete_block': ['^babylon::ConcurrentVector(<|$)'],
     'delete_block_table': ['^babylon::ConcurrentVector(<|$)'],
     'expire': ['^babylon::internal::concurrent_vector::RetireList(<|$)'],
     'get_current_timestamp': ['^babylon::internal::concurrent_vector::RetireList(<|$)'],
+    'get_qualified_block_table_slow': ['^babylon::ConcurrentVector(<|$)'],
     'retire': ['^babylon::internal::concurrent_vector::RetireList(<|$)'],
 }
